@@ -146,7 +146,10 @@ def check_parse_uri_lookup(cx: Cx, ob: Ob) -> None:
         if name not in LONGEST:
             ob.violate(fn.qualname, where(fn, ev.line), f"trie queried with `{name}`, which is not a longest-prefix lookup", witness="nested URI prefixes: the shorter prefix would win", detail=f"api:{name}")
             continue
-        if len(c[2]) != 1 or c[2][0] != ("param", "uri") or c[3]:
+        extra = list(c[2][1:]) + [v_ for k_, v_ in c[3] if k_ == "default"]
+        bad_kw = [k_ for k_, _ in c[3] if k_ != "default"]
+        # pytrie: longest_prefix*(key, default) returns the default instead of raising KeyError
+        if c[2][:1] != (("param", "uri"),) or bad_kw or len(extra) > 1 or any(not is_const(x, None) for x in extra):
             ob.violate(fn.qualname, where(fn, ev.line), f"trie queried with `{show(c[2][0]) if c[2] else '?'}` instead of the raw `uri` argument", detail="query-arg")
     # failure paths: every non-success outcome must sit under an except handler catching KeyError
     # (unless the query is given a default, in which case pytrie does not raise)
@@ -288,14 +291,65 @@ def curie_join_check(cx: Cx, ob: Ob, fn_name: str, base_pred, base_desc: str) ->
             ob.violate(fn.qualname, where(fn, line), f"{fn_name} joins with `{show(d)}`, not self.delimiter", detail="delimiter")
         ca, cb = component(a), component(b)
         if ca is None or cb is None or ca[1] != 0 or cb[1] != 1 or ca[0] != cb[0]:
+            # parse_curie written out in place: standardize_prefix(head) and standardize_identifier(.., tail) of
+            # the argument cut at the first self.delimiter
+            verdict = _direct_curie_parse(a, b, me, ("param", fn.params[1].name))
+            if verdict == "ok":
+                ob.site(f"{where(fn, line)} {fn.qualname}", "parse written out in place (first-delimiter partition, standardised prefix)")
+                continue
+            if verdict == "last-occurrence":
+                ob.violate(fn.qualname, where(fn, line), f"{fn_name} cuts its argument at the LAST delimiter while parse_curie / expand cut at the first: CURIEs whose identifier contains the delimiter are not standardised", witness="standardize_curie('go:GO:0032571') is None although expand resolves prefix 'go'", detail="last-occurrence")
+                continue
             ob.violate(fn.qualname, where(fn, line), f"{fn_name} does not join (prefix, identifier) of one parsed reference: `{show(a)[:40]}` / `{show(b)[:40]}`", detail="components")
             continue
         if not base_pred(ca[0], me):
-            ob.violate(fn.qualname, where(fn, line), f"{fn_name} formats `{show(ca[0])[:70]}`; expected {base_desc}", detail="base")
-            continue
+            if _strict_parse_in_handler(cx, ctx, ca[0], me):
+                ob.site(f"{where(fn, line)} {fn.qualname}", "strict parse inside a try that turns every library error into the failure tail")
+            else:
+                ob.violate(fn.qualname, where(fn, line), f"{fn_name} formats `{show(ca[0])[:70]}`; expected {base_desc}", detail="base")
+                continue
         success_conditions(ob, fn, ctx, ca[0], line)
     if n == 0:
         ob.undecide(f"{fn_name} has no success return")
+
+
+def _direct_curie_parse(a, b, me, arg):
+    """a = self.standardize_prefix(P[0]), b = P[2] or self.standardize_identifier(a, P[2]) with P = arg.partition(self.delimiter)."""
+    if not (op(a) == "call" and op(a[1]) == "attr" and a[1][1] == me and a[1][2] == "standardize_prefix" and a[2]):
+        return None
+    head = a[2][0]
+    tail = b
+    if op(b) == "call" and op(b[1]) == "attr" and b[1][1] == me and b[1][2] == "standardize_identifier" and len(b[2]) == 2:
+        if b[2][0] != a:
+            return None
+        tail = b[2][1]
+    if not (op(head) == "item" and op(tail) == "item" and head[1] == tail[1] and op(head[1]) == "call" and op(head[1][1]) == "attr" and head[1][1][1] == arg):
+        return None
+    P = head[1]
+    m = P[1][2]
+    if P[2][:1] != (("attr", me, "delimiter"),):
+        return None
+    if m in ("rpartition", "rsplit"):
+        return "last-occurrence"
+    if m == "partition" and is_const(head[2], 0) and is_const(tail[2], 2):
+        return "ok"
+    if m == "split" and is_const(head[2], 0) and is_const(tail[2], 1) and ((len(P[2]) > 1 and is_const(P[2][1], 1)) or is_const(dict(P[3]).get("maxsplit"), 1)):
+        return "ok"
+    return None
+
+
+def _strict_parse_in_handler(cx: Cx, ctx, base, me) -> bool:
+    """base = self.parse_curie(x, strict=True) evaluated inside a ``try`` whose handlers catch the whole family of
+    errors the strict parse can raise (standardisation errors AND the missing-delimiter error)."""
+    if not (self_call(base, me, "parse_curie") and is_const(dict(base[3]).get("strict"), True)):
+        return False
+    for ev in ctx.trail:
+        if ev.kind in ("bind", "expr") and (ev.b == base or ev.a == base) and ev.cov:
+            caught = [n.split(".")[-1] for hs in ev.cov for n in hs]
+            need = ("PrefixStandardizationError", "IdentifierStandardizationError", "NoCURIEDelimiterError")
+            if all(any(n == h or cx.model.is_subclass(n, h) or h in ("Exception", "BaseException") for h in caught) for n in need):
+                return True
+    return False
 
 
 def success_conditions(ob: Ob, fn, ctx, base, line) -> None:
